@@ -1,6 +1,82 @@
-import CCT.Model.Auth
-/-! # C05 (theorems; work in progress) -/
+import CCT.Lemmas.Rules
+import CCT.Props.C01
+/-!
+# C05 — the delegation check uses exactly the named role's keys and threshold
+
+Model: `verifyDelegationJ` (`authentication.py:142-244`).  `Schema` is the documented format of delegating metadata
+(C14), `roleOf t name` the delegation the *trusted* metadata lists under exactly that name, `RuleMet` the threshold
+test of C01/C02 with that delegation's keys and threshold.
+-/
 namespace CCT.C05
-open CCT
-theorem placeholder : okU = .ok () := rfl
+open CCT CCT.C15
+open Classical
+
+/-- what the property demands for acceptance -/
+def Spec (C : CryptoFns) (name : PStr) (u t : J) (gpg : Bool) : Prop :=
+  Schema t ∧ isSignableJ u = true ∧ ¬ TypeMismatch name u ∧ ∃ d, roleOf t name = some d ∧ RuleMet C gpg d u
+
+/-- **accepted iff** the trusted metadata is well formed, delegates to a role of exactly that name, that role's key set and
+threshold are met by valid signatures on the untrusted envelope, and the untrusted metadata — if it is itself delegating
+metadata — declares that role as its type -/
+theorem verifyDelegation_iff (C : CryptoFns) (name : PStr) (u t : J) (gpg : Bool) :
+    verifyDelegationJ C name u t gpg = .ok () ↔ Spec C name u t gpg := by
+  rw [verifyDelegation_eq]
+  by_cases h1 : ¬ Schema t ∨ isSignableJ u ≠ true
+  · rw [if_pos h1]
+    constructor
+    · intro h; cases h
+    · rintro ⟨hT, hU, _⟩; rcases h1 with h | h; exact absurd hT h; exact absurd hU h
+  · rw [if_neg h1]
+    have hT : Schema t := by by_cases h : Schema t; exact h; exact absurd (Or.inl h) h1
+    have hU : isSignableJ u = true := by by_cases h : isSignableJ u = true; exact h; exact absurd (Or.inr h) h1
+    by_cases h2 : TypeMismatch name u
+    · rw [if_pos h2]
+      constructor
+      · intro h; cases h
+      · rintro ⟨_, _, h, _⟩; exact absurd h2 h
+    · rw [if_neg h2]
+      cases hr : roleOf t name with
+      | none =>
+        constructor
+        · intro h; cases h
+        · rintro ⟨_, _, _, d, hd, _⟩; rw [hr] at hd; cases hd
+      | some d =>
+        simp only [rule_verdict C gpg d u (mem_delegations_ok hT hr) hU]
+        by_cases hm : RuleMet C gpg d u
+        · simp only [hm, if_true, true_iff]; exact ⟨hT, hU, h2, d, hr, hm⟩
+        · simp only [hm, if_false]
+          constructor
+          · intro h; cases h
+          · rintro ⟨_, _, _, d', hd', hm'⟩; rw [hr] at hd'; cases hd'; exact absurd hm' hm
+
+/-- a role that is not delegated is reported as unknown rather than accepted -/
+theorem unknown_role (C : CryptoFns) (name : PStr) (u t : J) (gpg : Bool) (hT : Schema t) (hU : isSignableJ u = true)
+    (hm : ¬ TypeMismatch name u) (hr : roleOf t name = none) : verifyDelegationJ C name u t gpg = .error .unknownRole := by
+  rw [verifyDelegation_eq, if_neg (by simp [hT, hU]), if_neg hm, hr]
+
+/-- insufficient signatures for a delegated role are a signature error -/
+theorem role_not_met (C : CryptoFns) (name : PStr) (u t : J) (gpg : Bool) (hT : Schema t) (hU : isSignableJ u = true)
+    (hm : ¬ TypeMismatch name u) (d : J) (hr : roleOf t name = some d) (hn : ¬ RuleMet C gpg d u) :
+    verifyDelegationJ C name u t gpg = .error .signature := by
+  rw [verifyDelegation_eq, if_neg (by simp [hT, hU]), if_neg hm, hr]
+  simp only [rule_verdict C gpg d u (mem_delegations_ok hT hr) hU, hn, if_false]
+
+/-- keys listed only for other roles never count: whatever else the trusted metadata delegates, the verdict is a function of the
+delegation it lists under `name` alone -/
+theorem other_roles_irrelevant (C : CryptoFns) (name : PStr) (u t t' : J) (gpg : Bool) (hT : Schema t) (hT' : Schema t')
+    (h : roleOf t name = roleOf t' name) : verifyDelegationJ C name u t gpg = verifyDelegationJ C name u t' gpg := by
+  rw [verifyDelegation_eq, verifyDelegation_eq, h]
+  simp [hT, hT']
+
+/-- keys listed only inside the untrusted metadata never count: the verdict depends on the untrusted envelope only through
+its signed portion and its signature entries, never through delegations it declares (they are just part of the signed bytes) -/
+theorem only_keys_of_named_role_count (C : CryptoFns) (gpg : Bool) (d u : J) (k : PStr) (sig : J)
+    (h : Counts C gpg (keysOf d) (ser (signedOf u)) k sig) : k ∈ keysOf d := h.2.1
+
+/-- the threshold applied is the named role's -/
+theorem needs_role_threshold (C : CryptoFns) (name : PStr) (u t : J) (gpg : Bool) (h : verifyDelegationJ C name u t gpg = .ok ()) :
+    ∃ d, roleOf t name = some d ∧ ∃ S : List PStr, S.Nodup ∧ thrOf d ≤ S.length ∧ ∀ k ∈ S, k ∈ keysOf d := by
+  obtain ⟨_, _, _, d, hd, hm⟩ := (verifyDelegation_iff C name u t gpg).mp h
+  exact ⟨d, hd, C01.threshold_needs_enough_authorized C gpg _ _ _ _ hm⟩
+
 end CCT.C05
